@@ -53,6 +53,7 @@ class VBound(object):
     self.recv = recv
     self.func = func
     self.cls = cls
+    self.fn_id = 6000000 + next(_counter)
   ty = FN
 
 
@@ -134,7 +135,7 @@ def _default_terms(ty):
 
 def coerce(v, ty):
   """Single z3 term of v at scalar/reference type ty."""
-  if isinstance(v, VFunc) and ty.k in ('fn', 'any'):
+  if isinstance(v, (VFunc, VBound)) and ty.k in ('fn', 'any'):
     return z3.IntVal(v.fn_id)
   if isinstance(v, (VFunc, VBound, VClass, VModule)):
     raise Unsupported('storing a callable into %r' % ty)
